@@ -170,6 +170,20 @@ def cases(rng, tier):
             else:
                 out.append(G.line("blaw", fmt, "B.o", [rng.randint(0, 5)], x + y + z))
 
+        # BOTH base rates near 1 at non-dyadic values: mul divides by 1 - ax*ay, which must not be taken from the rounded product
+        # (repair 003f05d; seeded C12_r4A re-introduces `1.0 - a` behind the renormalisation, which hides the panic but not the
+        # error eps / (1 - ax*ay) of the quotient terms); dually both near 0 for comul
+        for _ in range(N // 2):
+            x, y = G.float_bop(rng, fmt), G.float_bop(rng, fmt)
+            hi = 12 if fmt == "f64" else 5
+            for w in (x, y):
+                w[3] = G.round_fmt(fmt, 1.0 - 10.0 ** (-rng.uniform(2, hi)))
+            if rng.random() < 0.3:
+                x[3], y[3] = G.round_fmt(fmt, 1.0 - x[3]), G.round_fmt(fmt, 1.0 - y[3])
+                out.append(G.line("bcomul", fmt, "B.o", [], x + y))
+            else:
+                out.append(G.line("bmul", fmt, "B.o", [], x + y))
+
         def operand():
             z = rng.random()
             if z < 0.35:
